@@ -24,6 +24,8 @@ enum Loc {
     SeqElem,
     ArrayElem,
     TupleElem(usize),
+    /// the type parameter (and the single field) of scale-info's prelude `Cow<T>`, which generation unwraps
+    CowParam,
 }
 
 #[derive(Clone, Debug)]
@@ -155,6 +157,15 @@ fn ref_sites(reg: &PortableRegistry) -> Vec<(usize, Loc)> {
                     out.push((k, Loc::TupleElem(i)));
                 }
             }
+            TypeDef::Composite(c)
+                if visited.contains(&t.id)
+                    && t.ty.path.segments.len() == 1
+                    && t.ty.path.segments[0] == "Cow"
+                    && c.fields.len() == 1
+                    && t.ty.type_params.len() == 1 =>
+            {
+                out.push((k, Loc::CowParam));
+            }
             _ => {}
         }
     }
@@ -169,6 +180,10 @@ fn set_ref(reg: &mut PortableRegistry, k: usize, loc: &Loc, id: u32) {
         (TypeDef::Sequence(s), Loc::SeqElem) => s.type_param = sym(id),
         (TypeDef::Array(a), Loc::ArrayElem) => a.type_param = sym(id),
         (TypeDef::Tuple(tu), Loc::TupleElem(i)) => tu.fields[*i] = sym(id),
+        (TypeDef::Composite(c), Loc::CowParam) => {
+            c.fields[0].ty = sym(id);
+            t.type_params[0].ty = Some(sym(id));
+        }
         _ => panic!("site does not match entry"),
     }
 }
